@@ -9,12 +9,12 @@ from props import index_common as ic
 MODULES = ['FeVerif.Props.C09']
 
 
-def open_log(path, max_bytes=None):
+def open_log(path, max_bytes=None, **kw):
     """Open through MixedLogReader (default save_index=True): ('ok', [offsets]) or ('raise', kind)."""
     from fusion_engine_client.parsers import MixedLogReader
     try:
         r = MixedLogReader(path, num_threads=1, return_header=False, return_payload=False, return_offset=True,
-                           return_message_index=True, max_bytes=max_bytes)
+                           return_message_index=True, max_bytes=max_bytes, **kw)
         seq = [(int(x[0]), int(x[1])) for x in r]
         r.input_file.close()
         return ('ok', seq)
@@ -168,11 +168,29 @@ def histories(ctx, n, lines, pending):
                 f.write(cur)
             hist.append(op)
             if op == 'open-max-bytes':
-                mb = rng.choice([1, 30, len(cur) // 3, len(cur) // 2, max(1, len(cur) - 1)]) if cur else 1
+                ends = [o + ic.valid_at(cur, o) for o in range(len(cur)) if ic.valid_at(cur, o)]
+                mb = rng.choice([1, 30, len(cur) // 3, len(cur) // 2, max(1, len(cur) - 1), len(cur), len(cur) + 5] +
+                                (ends + [e - 1 for e in ends] + [e + 1 for e in ends]) * 2) if cur else 1
+                mb = max(1, mb)
                 hist[-1] = 'open-max-bytes=%d' % mb
-                r = open_log(path, max_bytes=mb)     # its own result is C10's business; here it must not poison the saved index
+                r = open_log(path, max_bytes=mb)     # what it returns for the limit is C10's business; here: it must not poison
+                # the saved index, and it must return what the same byte-limited read returns with the index ignored
                 if r[0] == 'raise':
                     pending.append(('open', {'initial_file': d.hex(), 'history': list(hist), 'data': cur.hex()}, r, cur))
+                else:
+                    keep = open(p1i, 'rb').read() if os.path.exists(p1i) else None
+                    r2 = open_log(path, max_bytes=mb, ignore_index=True, save_index=False)
+                    if keep is None and os.path.exists(p1i):
+                        os.remove(p1i)
+                    elif keep is not None:
+                        with open(p1i, 'wb') as f:
+                            f.write(keep)
+                    ctx.count('byte_limited_open_vs_index_ignored')
+                    if r2[0] == 'ok' and [o for o, _ in r[1]] != [o for o, _ in r2[1]]:
+                        ctx.violation('C09/byte-limited-read-differs-with-index-ignored',
+                                      'max_bytes=%d: the read returned offsets %s, the same read with ignore_index=True returns %s'
+                                      % (mb, [o for o, _ in r[1]][:12], [o for o, _ in r2[1]][:12]),
+                                      {'initial_file': d.hex(), 'history': list(hist), 'data': cur.hex()})
             if op == 'open':
                 r = open_log(path)
                 indexed_size = len(cur)
